@@ -18,6 +18,19 @@ if ! git -C "$WT" apply "$SRC/patch.diff"; then echo "RESULT $NAME patch does no
 if ! (cd "$WT" && go build ./... 2>&1 | head -5); then echo "RESULT $NAME does not build"; exit 2; fi
 if [ -z "${SKIP_CONFIRM:-}" ]; then
   FAILS="$(cd "$WT" && go test -vet=off -count=1 ./... 2>&1 | grep '^FAIL[[:space:]]\|^--- FAIL' | grep -v 'cmd/docgen/docs\|TestGenerateDocs' | head -5)"
+  if [ -n "$FAILS" ]; then
+    # the repository's tests listen on fixed local ports: other suites running at the same time make them fail; retry those packages alone
+    PKGS="$(echo "$FAILS" | grep '^FAIL[[:space:]]' | awk '{print $2}' | sort -u)"
+    FAILS=""
+    for pk in $PKGS; do
+      ok=""
+      for try in 1 2 3 4 5; do
+        if (cd "$WT" && go test -vet=off -count=1 "$pk" >/dev/null 2>&1); then ok=1; break; fi
+        sleep $((try * 7))
+      done
+      [ -z "$ok" ] && FAILS="$FAILS $pk"
+    done
+  fi
   if [ -n "$FAILS" ]; then echo "RESULT $NAME existing suite FAILS with the change: $FAILS"; exit 2; fi
   echo "confirm: existing suite passes with the change"
   if [ -d "$SRC/demo" ]; then
